@@ -76,10 +76,13 @@ def make(seq, excl=False, shape=None, reach=False):
                 return sysb(il, iu), (il, iu)
             a._system_bounds[IDS], cur = new_bounds("0")
             last_partial = False
+            history = []  # (proposal, creation time) in arrival order
+            last_expire = None
             for k, ev in enumerate(seq):
                 n0 = len(req.msgs)
                 if ev in ("reg", "op"):
                     p = prop(ex, f"{ev[0]}{k}", 1, ev == "op", float(k), shape)
+                    history.append(p)
                     await a._send_updated_target_power(IDS, p, must_send=True)
                     await a._send_reports(IDS)
                 elif ev == "bounds":
@@ -96,6 +99,7 @@ def make(seq, excl=False, shape=None, reach=False):
                     ex.assume(E(t) >= k)
                     a._set_power_group.drop_old_proposals(t)
                     a._set_op_power_group.drop_old_proposals(t)
+                    last_expire = t
                     # the next bounds update / proposal recomputes; the real loop does nothing else on the timer
                     continue
                 for r in req.msgs[n0:]:
@@ -110,6 +114,17 @@ def make(seq, excl=False, shape=None, reach=False):
                         continue
                     ex.check(rp == tot, f"event {k} ({ev}): request != regular target + operating-point target as reported")
                     ex.check(z3.And(E(cur[0]) <= rp, rp <= E(cur[1])), f"event {k} ({ev}): request outside the latest system inclusion bounds")
+            if last_expire is not None and not reach and seq[-1] != "expire":
+                # expiry: a group whose proposals have all expired must contribute 0 W once the targets have been recomputed
+                # (proposals older than the maximum age stop counting); cross-group ordering effects are NOT asserted here.
+                latest = {}
+                for p in history:
+                    latest[(p.set_operating_point, p.source_id[0], p.priority)] = p
+                for is_op, grp in ((False, a._set_power_group), (True, a._set_op_power_group)):
+                    mine = [p for key, p in latest.items() if key[0] == is_op]
+                    if mine and not any(ex.branch(E(last_expire) - E(p.creation_time) <= 60) for p in mine):
+                        t = grp.get_target_power(IDS)
+                        ex.check(t is None or bool(t.as_watts() == 0), "a group whose proposals have all expired still contributes a non-zero target")
         fx.run_loop(scenario())
     return fn
 
